@@ -120,6 +120,10 @@ func main() {
 		b.cleanup()
 		fatal2("%v", err)
 	}
+	if b.cliSkipped != "" {
+		cliEnabled = false
+		fmt.Printf("scenario C (the real cmd/php-parser under simulation) is skipped: %s\n", b.cliSkipped)
+	}
 	fmt.Printf("built instrumented simnode in %.1fs: %d yield sites, knob %v, sync rewritten in %v, go statements %v, channel ops wrapped %d, not wrappable %v\n",
 		b.wall.Seconds(), len(b.instr.Sites), b.instr.Knob, b.instr.SyncRewrite, b.instr.GoStmts, len(b.instr.ChanWrapped), b.instr.ChanOps)
 	code := 0
@@ -277,6 +281,15 @@ func sampleOf(r runOut) map[string]interface{} {
 		if s.Kind == "B" {
 			m["topology"] = fmt.Sprintf("1 producer, %d parser workers, 1 consumer, queue capacity %d", s.Workers, s.QueueCap)
 		}
+	}
+	if s.Kind == "C" {
+		var fs []string
+		for _, in := range s.Inputs {
+			fs = append(fs, fmt.Sprintf("%s = %s (%dB)", in.Path, in.Name, len(in.Src)))
+		}
+		m["program"] = fmt.Sprintf("php-parser %s %s with %d parser workers (the real cmd/php-parser main, goroutines, channels and WaitGroup under the simulated scheduler)", strings.Join(s.CLIFlags, " "), strings.Join(s.CLIPaths, " "), s.Workers)
+		m["files"] = fs
+		delete(m, "inputs")
 	}
 	if len(s.History) > 0 {
 		var h []string
